@@ -319,6 +319,25 @@ func c15Seq(variant string, ops []string) func(x *sched.Exec) {
 			}
 			_, _ = s1, s2
 		}
+		// what the batch processor's worker still does once the caller is done: let it run until it
+		// has nothing left, then look again
+		if len(ops) > 0 {
+			for k := 0; k < 8; k++ {
+				sched.SpinYield()
+			}
+			when := fmt.Sprintf("after %v, once the background goroutines have come to rest", ops)
+			if exp.afterSD > 0 {
+				x.Fail("C15|export-after-exporter-shutdown", "exporter received spans after its Shutdown (%s)", when)
+			}
+			for _, n := range lateSpans {
+				if exp.names[n] != 0 {
+					x.Fail("C15|telemetry-after-shutdown", "%q, started and ended after Shutdown had returned nil, was exported later (%s)", n, when)
+				}
+			}
+			if rec1.shuts > 1 || p2.shuts > 1 || exp.shuts > 1 {
+				x.Fail("C15|shut-down-more-than-once", "shutdown counts p1=%d p2=%d exporter=%d (%s)", rec1.shuts, p2.shuts, exp.shuts, when)
+			}
+		}
 		// leave no goroutines behind
 		_ = tp.Shutdown(context.Background())
 		if p, ok := p1.(*batchSpanProcessor); ok {
